@@ -310,20 +310,36 @@ def run_sub(prop, sub, tier, seed, workers_override=None):
     if workers_override:
         nw = workers_override
     jobs = [(prop, sub.name, tier, seed * 1000 + i, i, nw) for i in range(nw)]
-    if nw == 1:
-        return merge([_worker(jobs[0])])
     ctx = multiprocessing.get_context("fork")
     pool = ctx.Pool(nw)
     results = []
+    # hard wall limit: a code change that makes the code under test loop forever must not hang the
+    # check; what was explored until then is reported and the sub-check is marked inconclusive
+    budget = sub.budget_quick if tier == "quick" else sub.budget_thorough
+    hard = max(420.0, 6.0 * budget) if tier == "quick" else max(2400.0, 4.0 * budget)
+    t0 = time.time()
+    timed_out = False
     try:
-        for r in pool.imap_unordered(_worker, jobs):
+        it = pool.imap_unordered(_worker, jobs)
+        for _ in jobs:
+            try:
+                r = it.next(timeout=max(1.0, hard - (time.time() - t0)))
+            except multiprocessing.TimeoutError:
+                timed_out = True
+                break
             results.append(r)
             if r["failure"] is not None or r["harness"]:
                 break
     finally:
         pool.terminate()
         pool.join()
-    return merge(results)
+    out = merge(results)
+    if timed_out:
+        out.extra["hard_timeout"] = True
+        out.budget_exhausted = True
+        print("INCONCLUSIVE sub-check %s: workers exceeded the hard wall limit of %.0fs and were stopped "
+              "(not a violation)" % (sub.name, hard))
+    return out
 
 
 def write_replay(prop, subname, case, msg, details):
